@@ -24,11 +24,11 @@ def kindOf (protocol : Nat) : Kind :=
 /-! ### rendering the model's behaviour -/
 
 def obsSync : Obs → Option String
-  | .prompt s => some ("P" ++ toString s)
+  | .prompt p => some ("P" ++ toString p.seq)
   | .report s id h => some ("B" ++ toString s.code ++ ":" ++ toString id ++ ":" ++ toString h)
   | _ => none
 def obsEvent : Obs → Option String
-  | .fired s p _ => some ("E" ++ toString s.code ++ ":" ++ (match p with | some n => toString n | none => "_"))
+  | .fired s p _ => some ("E" ++ toString s.code ++ ":" ++ (match p with | some q => toString q.seq | none => "_"))
   | _ => none
 
 def joinC (xs : List String) : String := if xs.isEmpty then "-" else ",".intercalate xs
@@ -206,11 +206,11 @@ def step (s : DS) (c : Case) : DS × String × String :=
   | some op =>
     let (s', out) : DS × String := match s.kind with
       | .modern =>
-        let r := stepM { s.m with log := [] } op
-        ({ s with m := r.1 }, render r.2 r.1.log (r.1.pending.map (·.2.seq)) (r.1.applied.map (·.2.seq)))
+        let r := stepM s.m op
+        ({ s with m := r.1 }, render r.2.1 r.2.2 (r.1.pending.map (·.2.seq)) (r.1.applied.map (·.2.seq)))
       | k =>
-        let r := stepL (k == .legacy117) { s.l with log := [] } op
-        ({ s with l := r.1 }, render r.2 r.1.log (r.1.pending.toList.map (·.seq)) (r.1.applied.toList.map (·.seq)))
+        let r := stepL (k == .legacy117) s.l op
+        ({ s with l := r.1 }, render r.2.1 r.2.2 (r.1.pending.toList.map (·.seq)) (r.1.applied.toList.map (·.seq)))
     match parseImpl c.impl with
     | none => (s', out, "viol:unparsable-output")
     | some o =>
